@@ -166,9 +166,9 @@ def run(ctx):
 
     # ------------------------------------------------------------ R3
     prefixes = None
-    for n in ast.walk(bmeas.node):
-        if isinstance(n, ast.Assign) and isinstance(n.value, ast.Dict) and n.value.values and all(A.const_value(v) in ("alpha_", "gamma_", "") for v in n.value.values):
-            prefixes = {A.const_value(k): A.const_value(v) for k, v in zip(n.value.keys, n.value.values)}
+    for n in repo.walk_with_tables(bmeas):  # the table may be a local of the function or a (possibly imported) module-level constant it reads
+        if isinstance(n, ast.Dict) and n.values and all(k is not None for k in n.keys) and all(A.const_value(v) in ("alpha_", "gamma_", "") for v in n.values):
+            prefixes = {A.const_value(k): A.const_value(v) for k, v in zip(n.keys, n.values)}
     want = {"normsys": "alpha_", "histosys": "alpha_", "shapesys": "gamma_", "staterror": "gamma_"}
     if prefixes == want:
         ctx.holds(r3, f"{W}::build_measurement prefixes", str(prefixes))
